@@ -103,17 +103,75 @@ theorem expectedBack_def (st : StructTy) (props : List (String × SProp)) (m : L
       | some f => (readBack f kp.2 (lookupS kp.1 m)).map fun x => (kp.1, x)
       | none => none := rfl
 
-/-- the end-to-end round trip of one struct-mapped object, given that of its property types -/
-theorem rt_obj (x : Ext) (n : Nat) (id : String) {st : StructTy} (ptrT : Bool) {props : List (String × SProp)}
+theorem forSVS_append_ok {α β} {f : String → α → Out β} : ∀ {a b : List (String × α)} {a' b' : List (String × β)},
+    forSVS f a = .ok a' → forSVS f b = .ok b' → forSVS f (a ++ b) = .ok (a' ++ b')
+  | [], _, _, _, ha, hb => by
+    simp only [forSVS, Out.ok.injEq] at ha; subst ha; simpa using hb
+  | (k, v) :: rest, b, a', b', ha, hb => by
+    simp only [forSVS] at ha
+    cases hf : f k v with
+    | ok v' =>
+      rw [hf] at ha
+      simp only [] at ha
+      cases hr : forSVS f rest with
+      | ok r' =>
+        rw [hr] at ha
+        simp only [Out.ok.injEq] at ha
+        subst ha
+        have := forSVS_append_ok hr hb
+        simp only [List.cons_append, forSVS, hf, this]
+      | err e => rw [hr] at ha; cases ha
+      | panic => rw [hr] at ha; cases ha
+      | fuel => rw [hr] at ha; cases ha
+    | err e => rw [hf] at ha; cases ha
+    | panic => rw [hf] at ha; cases ha
+    | fuel => rw [hf] at ha; cases ha
+
+theorem lookupS_append_eq {α} (k : String) : ∀ (a b : List (String × α)),
+    lookupS k (a ++ b) = match lookupS k a with
+      | some v => some v
+      | none => lookupS k b
+  | [], b => by simp [lookupS]
+  | (k', v) :: rest, b => by
+    simp only [List.cons_append, lookupS_cons]
+    by_cases h : k = k'
+    · simp [h]
+    · simp only [h, if_false]; exact lookupS_append_eq k rest b
+
+theorem hasKey_true_mem {α} {k : String} {m : List (String × α)} (h : hasKey k m = true) : ∃ a, (k, a) ∈ m := by
+  obtain ⟨a, ha⟩ := Option.isSome_iff_exists.mp h
+  exact ⟨a, lookupS_mem ha⟩
+
+theorem hasKey_of_mem {α} {k : String} {a : α} {m : List (String × α)} (h : (k, a) ∈ m) : hasKey k m = true := by
+  cases hk : hasKey k m with
+  | true => rfl
+  | false =>
+    have : lookupS k m = none := by simpa [hasKey] using hk
+    exact absurd (List.mem_map.mpr ⟨(k, a), h, rfl⟩) ((lookupS_eq_none_iff k m).mp this)
+
+/-- The end-to-end round trip of one struct-mapped object, given that of its property types - with
+    EXTRA entries appended to the serialized form before it is unserialized again: entries of
+    treat-empty-as-default properties that the read from the struct dropped, carrying a value that
+    unserializes to the value held by the struct (an inlined one-of restores its discriminator so).
+    Also reported: the converted map `m` of the first Unserialize, which keys the serialized form
+    has, and that its values are the serialized values of `m`. -/
+theorem rt_obj_ext (x : Ext) (n : Nat) (id : String) {st : StructTy} (ptrT : Bool) {props : List (String × SProp)}
     (hwf : WFObj st props) (hex : exactObjB st props = true)
     (hrt : ∀ kp, kp ∈ props → rtPropB st props kp = true)
-    (ih : ∀ kp, kp ∈ props → RTAt (srun x (n + 2)) kp.2.ty) (v s : SV)
-    (hU : runObjS (srun x (n + 2)) (n + 2) .U st ptrT props v = .ok s) :
+    (ih : ∀ kp, kp ∈ props → RTAt (srun x (n + 2)) kp.2.ty) (v s : SV) (extra : List (String × V))
+    (hU : runObjS (srun x (n + 2)) (n + 2) .U st ptrT props v = .ok s)
+    (hx : ∀ m, sobjRaw (srun x (n + 2)) (n + 2) st props v = .ok m →
+      (keysOf extra).Nodup ∧ ∀ ka, ka ∈ extra → ∃ p f y, (ka.1, p) ∈ props ∧ fieldFor st ka.1 = some f ∧
+        lookupS ka.1 m = some y ∧ srun x (n + 2) .U p.ty (.val ka.2) = .ok y ∧ readBack f p (some y) = none) :
     runObjS (srun x (n + 2)) (n + 2) .V st ptrT props s = .ok (.val unitV) ∧
-    ∃ w s', runObjS (srun x (n + 2)) (n + 2) .S st ptrT props s = .ok (.val w) ∧
-      runObjS (srun x (n + 2)) (n + 2) .U st ptrT props (.val w) = .ok s' ∧
+    ∃ m wl s', sobjRaw (srun x (n + 2)) (n + 2) st props v = .ok m ∧
+      runObjS (srun x (n + 2)) (n + 2) .S st ptrT props s = .ok (.val (toStrAny wl)) ∧
+      (∀ k p f, (k, p) ∈ props → fieldFor st k = some f → hasKey k wl = (readBack f p (lookupS k m)).isSome) ∧
+      (∀ k a y, lookupS k wl = some a → lookupS k m = some y →
+        ∃ p, lookupS k props = some p ∧ srun x (n + 2) .S p.ty y = .ok (.val a)) ∧
+      runObjS (srun x (n + 2)) (n + 2) .U st ptrT props (.val (toStrAny (wl ++ extra))) = .ok s' ∧
       Eqv (.obj id st ptrT props) s s' ∧
-      runObjS (srun x (n + 2)) (n + 2) .S st ptrT props s' = .ok (.val w) := by
+      runObjS (srun x (n + 2)) (n + 2) .S st ptrT props s' = .ok (.val (toStrAny wl)) := by
   simp only [runObjS] at hU
   obtain ⟨m, hm, hU⟩ := Out.bind_eq_ok hU
   obtain ⟨_, hi, hU⟩ := Out.bind_eq_ok hU
@@ -121,6 +179,7 @@ theorem rt_obj (x : Ext) (n : Nat) (id : String) {st : StructTy} (ptrT : Bool) {
   cases hU
   obtain ⟨hnd, hent, habs⟩ := sobjRaw_facts hm
   have hdecl := sobjRaw_declared hm
+  obtain ⟨hxnd, hxe⟩ := hx m hm
   have hcm : ConvertedMap props m := ⟨hnd, hdecl, fun kv hkv p hp => by
     obtain ⟨p', v0, hl', _, hu⟩ := hent kv hkv
     rw [hp] at hl'; cases hl'
@@ -159,6 +218,39 @@ theorem rt_obj (x : Ext) (n : Nat) (id : String) {st : StructTy} (ptrT : Bool) {
   have hlr : ∀ kp, kp ∈ props → ∀ f, fieldFor st kp.1 = some f →
       lookupS kp.1 (expectedBack st props m) = readBack f kp.2 (lookupS kp.1 m) :=
     fun kp hkp f hf => lookupS_expectedBack st props m hwf kp.1 kp.2 hkp f hf
+  -- the extra entries: what they unserialize to, and that the read dropped their properties
+  let XB : String × V → SV := fun ka => okGet (entryUS (srun x (n + 2)) props ka.1 ka.2)
+  have hXB : ∀ ka, ka ∈ extra → ∃ p f, (ka.1, p) ∈ props ∧ fieldFor st ka.1 = some f ∧
+      lookupS ka.1 m = some (XB ka) ∧ entryUS (srun x (n + 2)) props ka.1 ka.2 = .ok (XB ka) ∧
+      readBack f p (some (XB ka)) = none ∧ p.emptyIsDefault = true := by
+    intro ka hka
+    obtain ⟨p, f, y, hkp, hf, hly, hu, hrb⟩ := hxe ka hka
+    have hdis := hmdis (ka.1, p) hkp y hly
+    simp only [] at hdis
+    have he : entryUS (srun x (n + 2)) props ka.1 ka.2 = .ok y := by
+      simp [entryUS, lookupS_of_mem_nodup hwf.keys hkp, hdis, hu, Out.addSeg]
+    have hxb : XB ka = y := by simp only [XB, he, okGet]
+    rw [hxb]
+    refine ⟨p, f, hkp, hf, hly, he, hrb, ?_⟩
+    rcases readBack_some_none hrb with h | h
+    · exact h
+    · rw [hdis] at h; cases h
+  have hxk : ∀ ka, ka ∈ extra → hasKey ka.1 (expectedBack st props m) = false := by
+    intro ka hka
+    obtain ⟨p, f, hkp, hf, hly, _, hrb, _⟩ := hXB ka hka
+    simp only [hasKey, hlr (ka.1, p) hkp f hf, hly, hrb, Option.isSome_none]
+  have hxprop : ∀ k, hasKey k extra = true → ∀ p, (k, p) ∈ props → ∃ ka f, ka ∈ extra ∧ ka.1 = k ∧ fieldFor st k = some f ∧
+      lookupS k m = some (XB ka) ∧ readBack f p (some (XB ka)) = none ∧ p.emptyIsDefault = true := by
+    intro k hk p hkp
+    obtain ⟨a, ha⟩ := hasKey_true_mem hk
+    obtain ⟨p', f, hkp', hf, hly, _, hrb, he⟩ := hXB (k, a) ha
+    simp only [] at hkp' hf hly
+    have : p' = p := by
+      have h1 := lookupS_of_mem_nodup hwf.keys hkp'
+      rw [lookupS_of_mem_nodup hwf.keys hkp] at h1
+      exact (Option.some.inj h1).symm
+    subst this
+    exact ⟨(k, a), f, ha, rfl, hf, hly, hrb, he⟩
   -- presence rules: the map read back is accepted like the converted map
   have hiraw : interdeps (rulesOf props) (fun k => hasKey k (expectedBack st props m)) = .ok () := by
     refine interdeps_stable _ _ _ ?_ ?_ hi
@@ -218,11 +310,11 @@ theorem rt_obj (x : Ext) (n : Nat) (id : String) {st : StructTy} (ptrT : Bool) {
     keysOf_map_val _ _
   have hkeysm' : keysOf ((expectedBack st props m).map fun kv => (kv.1, B kv)) = keysOf (expectedBack st props m) :=
     keysOf_map_val _ _
-  have hnoadd : applyDefaultsS st (n + 2) props ((expectedBack st props m).map fun kv => (kv.1, A kv)) =
-      .ok ((expectedBack st props m).map fun kv => (kv.1, A kv)) := by
+  have hnoadd : applyDefaultsS st (n + 2) props (((expectedBack st props m).map fun kv => (kv.1, A kv)) ++ extra) =
+      .ok (((expectedBack st props m).map fun kv => (kv.1, A kv)) ++ extra) := by
     apply applyDefaultsS_noadd
     intro kp hkp
-    rw [hasKey_congr_keys hkeysL1]
+    rw [hasKey_append, hasKey_congr_keys hkeysL1]
     cases hk : hasKey kp.1 (expectedBack st props m) with
     | true => exact Or.inl rfl
     | false =>
@@ -239,49 +331,110 @@ theorem rt_obj (x : Ext) (n : Nat) (id : String) {st : StructTy} (ptrT : Bool) {
         · obtain ⟨hpl, hd, _⟩ := hspec he
           exact dflStep_plainLeaf hpl hd
         · rw [hmdis kp hkp v hlm] at hdis; cases hdis
+  have hkeysX : keysOf (extra.map fun ka => (ka.1, XB ka)) = keysOf extra := keysOf_map_val _ _
+  have hdisj : ∀ a, a ∈ keysOf (expectedBack st props m) → ∀ b, b ∈ keysOf extra → a ≠ b := by
+    intro a ha b hb hab
+    subst hab
+    obtain ⟨ka, hka, rfl⟩ := List.mem_map.mp hb
+    have := hxk ka hka
+    have hnone : lookupS ka.1 (expectedBack st props m) = none := by simpa [hasKey] using this
+    exact ((lookupS_eq_none_iff _ _).mp hnone) ha
   have hraw2 : sobjRaw (srun x (n + 2)) (n + 2) st props
-      (.val (toStrAny ((expectedBack st props m).map fun kv => (kv.1, A kv)))) =
-      .ok ((expectedBack st props m).map fun kv => (kv.1, B kv)) := by
+      (.val (toStrAny (((expectedBack st props m).map fun kv => (kv.1, A kv)) ++ extra))) =
+      .ok (((expectedBack st props m).map fun kv => (kv.1, B kv)) ++ extra.map fun ka => (ka.1, XB ka)) := by
     unfold sobjRaw
     simp only [rawEntries_toStrAny, strKeys_toStrAny]
-    have h1 : (List.map (fun x => x.1) ((expectedBack st props m).map fun kv => (kv.1, A kv))).Nodup := by
-      have := hrawnd
-      rw [← hkeysL1] at this
-      exact this
-    have h2 : (((expectedBack st props m).map fun kv => (kv.1, A kv)).any fun kv => !hasKey kv.1 props) = false := by
+    have h1 : (List.map (fun x => x.1) (((expectedBack st props m).map fun kv => (kv.1, A kv)) ++ extra)).Nodup := by
+      rw [List.map_append, List.nodup_append]
+      refine ⟨?_, hxnd, ?_⟩
+      · have := hrawnd
+        rw [← hkeysL1] at this
+        exact this
+      · intro a ha b hb
+        exact hdisj a (by rw [← hkeysL1]; exact ha) b hb
+    have h2 : ((((expectedBack st props m).map fun kv => (kv.1, A kv)) ++ extra).any fun kv => !hasKey kv.1 props) = false := by
       rw [List.any_eq_false]
       intro kv hkv
-      obtain ⟨kv0, hkv0, rfl⟩ := List.mem_map.mp hkv
-      obtain ⟨p, hkp⟩ := hrawmem kv0 hkv0
-      simp [hasKey, lookupS_of_mem_nodup hwf.keys hkp]
+      rcases List.mem_append.mp hkv with hkv | hkv
+      · obtain ⟨kv0, hkv0, rfl⟩ := List.mem_map.mp hkv
+        obtain ⟨p, hkp⟩ := hrawmem kv0 hkv0
+        simp [hasKey, lookupS_of_mem_nodup hwf.keys hkp]
+      · obtain ⟨p, _, hkp, _⟩ := hXB kv hkv
+        simp [hasKey, lookupS_of_mem_nodup hwf.keys hkp]
     simp only [h1, decide_true, Bool.not_true, Bool.false_eq_true, if_false, h2, hnoadd, Out.bind]
-    exact forSVS_map_pointwise (g1 := A) (g2 := B) _ (fun kv hkv => (hAB kv hkv).u)
-  have him' : interdeps (rulesOf props) (fun k => hasKey k ((expectedBack st props m).map fun kv => (kv.1, B kv))) = .ok () := by
-    have : (fun k => hasKey k ((expectedBack st props m).map fun kv => (kv.1, B kv))) =
-        (fun k => hasKey k (expectedBack st props m)) := funext (fun k => hasKey_congr_keys hkeysm' k)
-    rw [this]; exact hiraw
-  have hcm' : ConvertedMap props ((expectedBack st props m).map fun kv => (kv.1, B kv)) := by
-    refine ⟨by rw [hkeysm']; exact hrawnd, ?_, ?_⟩
+    exact forSVS_append_ok (forSVS_map_pointwise (g1 := A) (g2 := B) _ (fun kv hkv => (hAB kv hkv).u))
+      (forSVS_pointwise extra (g2 := XB) (fun ka hka => by obtain ⟨_, _, _, _, _, he, _⟩ := hXB ka hka; exact he))
+  have him' : interdeps (rulesOf props) (fun k => hasKey k
+      (((expectedBack st props m).map fun kv => (kv.1, B kv)) ++ extra.map fun ka => (ka.1, XB ka))) = .ok () := by
+    refine interdeps_stable _ _ _ ?_ ?_ hiraw
+    · intro k hrel
+      rw [hasKey_append, hasKey_congr_keys hkeysm', hasKey_congr_keys hkeysX]
+      cases hkx : hasKey k extra with
+      | false => simp
+      | true =>
+        exfalso
+        obtain ⟨a, ha⟩ := hasKey_true_mem hkx
+        obtain ⟨p, _, hkp, _, _, _, _, he⟩ := hXB (k, a) ha
+        obtain ⟨_, _, _, hspec, _⟩ := rtPropB_spec (hrt (k, p) hkp)
+        rw [(hspec hrel).2] at he; cases he
+    · intro ip _ _ hset
+      rw [hasKey_append, hasKey_congr_keys hkeysm', hset]; rfl
+  have hcm' : ConvertedMap props
+      (((expectedBack st props m).map fun kv => (kv.1, B kv)) ++ extra.map fun ka => (ka.1, XB ka)) := by
+    refine ⟨?_, ?_, ?_⟩
+    · simp only [keysOf, List.map_append]
+      rw [List.nodup_append]
+      refine ⟨by have := hrawnd; rw [← hkeysm'] at this; exact this, by have := hxnd; rw [← hkeysX] at this; exact this, ?_⟩
+      intro a ha b hb
+      exact hdisj a (by rw [← hkeysm']; exact ha) b (by rw [← hkeysX]; exact hb)
     · intro kv hkv
-      obtain ⟨kv0, hkv0, rfl⟩ := List.mem_map.mp hkv
-      obtain ⟨p, hkp⟩ := hrawmem kv0 hkv0
-      simp [hasKey, lookupS_of_mem_nodup hwf.keys hkp]
+      rcases List.mem_append.mp hkv with hkv | hkv
+      · obtain ⟨kv0, hkv0, rfl⟩ := List.mem_map.mp hkv
+        obtain ⟨p, hkp⟩ := hrawmem kv0 hkv0
+        simp [hasKey, lookupS_of_mem_nodup hwf.keys hkp]
+      · obtain ⟨ka, hka, rfl⟩ := List.mem_map.mp hkv
+        obtain ⟨p, _, hkp, _⟩ := hXB ka hka
+        simp [hasKey, lookupS_of_mem_nodup hwf.keys hkp]
     · intro kv hkv p hp
-      obtain ⟨kv0, hkv0, rfl⟩ := List.mem_map.mp hkv
-      obtain ⟨p', hl', _, hsh, _⟩ := (hAB kv0 hkv0).rel
-      simp only [] at hp
-      rw [hp] at hl'; cases hl'
-      exact hsh
+      rcases List.mem_append.mp hkv with hkv | hkv
+      · obtain ⟨kv0, hkv0, rfl⟩ := List.mem_map.mp hkv
+        obtain ⟨p', hl', _, hsh, _⟩ := (hAB kv0 hkv0).rel
+        simp only [] at hp
+        rw [hp] at hl'; cases hl'
+        exact hsh
+      · obtain ⟨ka, hka, rfl⟩ := List.mem_map.mp hkv
+        obtain ⟨p', _, hkp, _, hly, _, _, _⟩ := hXB ka hka
+        simp only [] at hp
+        exact hcm.shaped (ka.1, XB ka) (lookupS_mem hly) p hp
   have hts' := toStruct_exact hwf hex hcm'
   have hU2 : runObjS (srun x (n + 2)) (n + 2) .U st ptrT props
-      (.val (toStrAny ((expectedBack st props m).map fun kv => (kv.1, A kv)))) =
-      .ok (wrapT ptrT st.name (applyEntries st props ((expectedBack st props m).map fun kv => (kv.1, B kv)) (zeroFields st))) := by
+      (.val (toStrAny (((expectedBack st props m).map fun kv => (kv.1, A kv)) ++ extra))) =
+      .ok (wrapT ptrT st.name (applyEntries st props
+        (((expectedBack st props m).map fun kv => (kv.1, B kv)) ++ extra.map fun ka => (ka.1, XB ka)) (zeroFields st))) := by
     simp only [runObjS, hraw2, Out.bind, him', hts']
   -- what the second struct holds for each property
-  have hlm' : ∀ k, lookupS k ((expectedBack st props m).map fun kv => (kv.1, B kv)) =
-      (lookupS k (expectedBack st props m)).map (fun y => B (k, y)) := fun k => lookupS_map_val B _ k
+  have hlm' : ∀ k, hasKey k extra = false →
+      lookupS k (((expectedBack st props m).map fun kv => (kv.1, B kv)) ++ extra.map fun ka => (ka.1, XB ka)) =
+      (lookupS k (expectedBack st props m)).map (fun y => B (k, y)) := by
+    intro k hk
+    rw [lookupS_append_eq, lookupS_map_val B]
+    cases hl : lookupS k (expectedBack st props m) with
+    | some y => rfl
+    | none =>
+      simp only [Option.map_none]
+      have : hasKey k (extra.map fun ka => (ka.1, XB ka)) = false := by rw [hasKey_congr_keys hkeysX]; exact hk
+      simpa [hasKey] using this
+  have hlmX : ∀ ka, ka ∈ extra →
+      lookupS ka.1 (((expectedBack st props m).map fun kv => (kv.1, B kv)) ++ extra.map fun ka => (ka.1, XB ka)) =
+      some (XB ka) := by
+    intro ka hka
+    rw [lookupS_append_eq, lookupS_map_val B]
+    have hnone : lookupS ka.1 (expectedBack st props m) = none := by simpa [hasKey] using hxk ka hka
+    rw [hnone]
+    simp only [Option.map_none]
+    exact lookupS_of_mem_nodup (by rw [hkeysX]; exact hxnd) (List.mem_map.mpr ⟨ka, hka, rfl⟩)
   -- Serialize of the second struct
-  have hexp' : expectedBack st props ((expectedBack st props m).map fun kv => (kv.1, B kv)) =
+  have hexp' : expectedBack st props (((expectedBack st props m).map fun kv => (kv.1, B kv)) ++ extra.map fun ka => (ka.1, XB ka)) =
       (expectedBack st props m).map fun kv => (kv.1, B kv) := by
     have hmap : ((expectedBack st props m).map fun kv => (kv.1, B kv)) =
         props.filterMap (fun kp => (match fieldFor st kp.1 with
@@ -289,13 +442,22 @@ theorem rt_obj (x : Ext) (n : Nat) (id : String) {st : StructTy} (ptrT : Bool) {
           | none => none).map fun (kv : String × SV) => (kv.1, B kv)) := by
       rw [expectedBack_def st props m, List.map_filterMap]
     conv => rhs; rw [hmap]
-    rw [expectedBack_def st props ((expectedBack st props m).map fun kv => (kv.1, B kv))]
+    rw [expectedBack_def st props (((expectedBack st props m).map fun kv => (kv.1, B kv)) ++ extra.map fun ka => (ka.1, XB ka))]
     apply filterMap_congr'
     intro kp hkp
     obtain ⟨f, hf, _⟩ := propOK_field (hwf.prop kp hkp)
     simp only [hf]
     have hl := hlr kp hkp f hf
-    rw [hlm' kp.1, hl]
+    cases hkx : hasKey kp.1 extra with
+    | true =>
+      obtain ⟨ka, f', hka, hk1, hf', hly, hrb, _⟩ := hxprop kp.1 hkx kp.2 hkp
+      rw [hf] at hf'; cases hf'
+      have := hlmX ka hka
+      rw [hk1] at this
+      rw [this, hly, hrb]
+      rfl
+    | false =>
+    rw [hlm' kp.1 hkx, hl]
     cases hrb : readBack f kp.2 (lookupS kp.1 m) with
     | none =>
       simp only [Option.map_none]
@@ -339,12 +501,39 @@ theorem rt_obj (x : Ext) (n : Nat) (id : String) {st : StructTy} (ptrT : Bool) {
   have hfrom' := C01_struct_fromStruct_toStruct st props _ _ hwf hex hcm' hts'
   rw [hexp'] at hfrom'
   have hS2 : runObjS (srun x (n + 2)) (n + 2) .S st ptrT props
-      (wrapT ptrT st.name (applyEntries st props ((expectedBack st props m).map fun kv => (kv.1, B kv)) (zeroFields st))) =
+      (wrapT ptrT st.name (applyEntries st props (((expectedBack st props m).map fun kv => (kv.1, B kv)) ++ extra.map fun ka => (ka.1, XB ka)) (zeroFields st))) =
       .ok (.val (toStrAny ((expectedBack st props m).map fun kv => (kv.1, A kv)))) := by
     simp only [runObjS, unwrapT_wrapT, Out.bind, hfrom']
     rw [forSVS_map_pointwise (g1 := B) (g2 := fun kv => SV.val (A kv)) _ (fun kv hkv => (hAB kv hkv).s')]
-    simp only [hasv, him']
-  refine ⟨hV, _, _, hS, hU2, ?_, hS2⟩
+    have him2 : interdeps (rulesOf props) (fun k => hasKey k ((expectedBack st props m).map fun kv => (kv.1, B kv))) = .ok () := by
+      have : (fun k => hasKey k ((expectedBack st props m).map fun kv => (kv.1, B kv))) =
+          (fun k => hasKey k (expectedBack st props m)) := funext (fun k => hasKey_congr_keys hkeysm' k)
+      rw [this]; exact hiraw
+    simp only [hasv, him2]
+  refine ⟨hV, m, _, _, hm, hS, ?_, ?_, hU2, ?_, hS2⟩
+  · -- which keys the serialized form has
+    intro k p f hkp hf
+    rw [hasKey_congr_keys hkeysL1]
+    simp only [hasKey, hlr (k, p) hkp f hf]
+  · -- its values are the serialized values of the converted map
+    intro k a y hla hly
+    rw [lookupS_map_val A] at hla
+    cases hlraw : lookupS k (expectedBack st props m) with
+    | none => rw [hlraw] at hla; cases hla
+    | some y' =>
+      rw [hlraw] at hla
+      simp only [Option.map_some, Option.some.injEq] at hla
+      have hmem := lookupS_mem hlraw
+      obtain ⟨p, f, hkp, hf, hrb⟩ := expectedBack_mem hmem
+      simp only [] at hkp hf hrb
+      rw [hly] at hrb
+      obtain ⟨hy, _⟩ := readBack_some hrb
+      have hl : lookupS k props = some p := lookupS_of_mem_nodup hwf.keys hkp
+      have hs := (hAB (k, y') hmem).s
+      simp only [entryVS, hl, hla] at hs
+      refine ⟨p, hl, ?_⟩
+      rw [← hy]
+      exact addSeg_eq_ok hs
   -- the two structs differ only where a treat-empty-as-default value was dropped
   rw [hfs]
   refine Eqv.obj (by rw [keysOf_applyEntries, keysOf_zeroFields]) (by rw [keysOf_applyEntries, keysOf_applyEntries]) ?_ ?_
@@ -361,7 +550,19 @@ theorem rt_obj (x : Ext) (n : Nat) (id : String) {st : StructTy} (ptrT : Bool) {
     rw [hf] at hf'; cases hf'
     have hexf := exact_of_mem hex hkp hf
     rw [lookupS_applied hwf hex hcm hkp hf] at hl1
-    rw [lookupS_applied hwf hex hcm' hkp hf, hlm' kp.1, hlr kp hkp f hf] at hl2
+    rw [lookupS_applied hwf hex hcm' hkp hf] at hl2
+    cases hkx : hasKey kp.1 extra with
+    | true =>
+      obtain ⟨ka, _, hka, hk1, _, hly, _, _⟩ := hxprop kp.1 hkx kp.2 hkp
+      have := hlmX ka hka
+      rw [hk1] at this
+      rw [this] at hl2
+      rw [hly] at hl1
+      simp only [Option.some.injEq] at hl1 hl2
+      subst hl1 hl2
+      exact .same
+    | false =>
+    rw [hlm' kp.1 hkx, hlr kp hkp f hf] at hl2
     simp only [Option.some.injEq] at hl1 hl2
     subst hl1 hl2
     cases hlm : lookupS kp.1 m with
@@ -409,6 +610,22 @@ theorem rt_obj (x : Ext) (n : Nat) (id : String) {st : StructTy} (ptrT : Bool) {
         by_cases hft : f.ty = reflTy kp.2.ty
         · simp only [hft, if_true]; exact .val hE
         · simp only [hft, if_false]; exact .ptr hE
+
+/-- the end-to-end round trip of one struct-mapped object, given that of its property types -/
+theorem rt_obj (x : Ext) (n : Nat) (id : String) {st : StructTy} (ptrT : Bool) {props : List (String × SProp)}
+    (hwf : WFObj st props) (hex : exactObjB st props = true)
+    (hrt : ∀ kp, kp ∈ props → rtPropB st props kp = true)
+    (ih : ∀ kp, kp ∈ props → RTAt (srun x (n + 2)) kp.2.ty) (v s : SV)
+    (hU : runObjS (srun x (n + 2)) (n + 2) .U st ptrT props v = .ok s) :
+    runObjS (srun x (n + 2)) (n + 2) .V st ptrT props s = .ok (.val unitV) ∧
+    ∃ w s', runObjS (srun x (n + 2)) (n + 2) .S st ptrT props s = .ok (.val w) ∧
+      runObjS (srun x (n + 2)) (n + 2) .U st ptrT props (.val w) = .ok s' ∧
+      Eqv (.obj id st ptrT props) s s' ∧
+      runObjS (srun x (n + 2)) (n + 2) .S st ptrT props s' = .ok (.val w) := by
+  obtain ⟨hV, _, wl, s', _, hS, _, _, hU2, hE, hS2⟩ := rt_obj_ext x n id ptrT hwf hex hrt ih v s [] hU
+    (fun _ _ => ⟨List.nodup_nil, fun _ h => by cases h⟩)
+  rw [List.append_nil] at hU2
+  exact ⟨hV, _, s', hS, hU2, hE, hS2⟩
 
 end SM
 end Arca
